@@ -3,20 +3,34 @@
 //! OligoComputer::get_header on a struct built from the real kmer_pos_maps.
 #![allow(dead_code)]
 use super::OligoComputer;
-use kmer::kmer::KmerGenerator;
+#[cfg(kani)]
+use kmer::verif_shim::HashMap;
+#[cfg(not(kani))]
+use std::collections::HashMap;
 use crate::verif_support::*;
 
-pub fn mk_computer(k: usize, norm: bool) -> OligoComputer {
-    let (pos_map, pos_kmer, kcount) = KmerGenerator::kmer_pos_maps(k);
+/*@@TABLES@@*/
+
+/// Struct built directly (OligoComputer::new calls rayon::current_num_threads)
+/// from the tables of a native run of the real kmer_pos_maps(k) on this tree.
+pub fn mk_computer(k: usize, rank: &[usize], inv: &[u64], kcount: usize) -> OligoComputer {
+    let mut pos_kmer = HashMap::new();
+    let mut p = 0;
+    while p < inv.len() {
+        if inv[p] != u64::MAX {
+            pos_kmer.insert(p, inv[p]);
+        }
+        p += 1;
+    }
     OligoComputer {
         in_path: String::new(),
         out_path: String::new(),
         ksize: k,
         kcount,
         threads: 1,
-        pos_map,
+        pos_map: rank.to_vec(),
         pos_kmer,
-        norm,
+        norm: true,
         delim: String::new(),
         memory: 0,
         header: false,
@@ -24,56 +38,45 @@ pub fn mk_computer(k: usize, norm: bool) -> OligoComputer {
 }
 
 /// header[p] must be the text of the p-th canonical k-mer in increasing code
-/// order.  The p-th canonical code is recomputed here by counting (oracle).
-pub fn c03_header<const K: usize>() {
-    let oc = mk_computer(K, true);
+/// order, for EVERY column p.  get_header has no input besides the tables, so
+/// every value is concrete: the columns are walked by a concrete loop and the
+/// symbolic executor decides each comparison (no symbolic heap indexing).
+pub fn c03_header<const K: usize>(rank: &[usize], inv: &[u64], kcount: usize) {
+    let oc = mk_computer(K, rank, inv, kcount);
     let h = oc.get_header();
     let total = pow4(K);
-    // oracle: number of canonical codes
     let mut ncanon = 0usize;
     let mut z = 0u64;
     while z < total {
         if z <= rc_code_oracle(z, K) {
+            // z is the ncanon-th canonical code (oracle): its name must sit in column ncanon
+            let p = ncanon;
+            check!(p < h.len(), "C03: header does not have one name per canonical k-mer");
+            if p < h.len() {
+                let name = h[p].as_bytes();
+                check!(name.len() == K, "C03: a header name does not have k letters");
+                let mut v = 0u64;
+                let mut ok = true;
+                let mut j = 0;
+                while j < K {
+                    if j < name.len() {
+                        let c = name[j];
+                        if !(c == b'A' || c == b'C' || c == b'G' || c == b'T') {
+                            ok = false;
+                        }
+                        v = v * 4 + (code(c) as u64 & 3);
+                    }
+                    j += 1;
+                }
+                check!(ok, "C03: a header name contains a letter outside ACGT");
+                check!(v == z, "C03: header name of a column is not the column's canonical k-mer (column order)");
+            }
             ncanon += 1;
         }
         z += 1;
     }
     check!(h.len() == ncanon, "C03: header does not have one name per canonical k-mer");
-    let p = any_usize();
-    assume(p < ncanon);
-    // p-th canonical code (oracle)
-    let mut seen = 0usize;
-    let mut cp = 0u64;
-    let mut z = 0u64;
-    while z < total {
-        if z <= rc_code_oracle(z, K) {
-            if seen == p {
-                cp = z;
-            }
-            seen += 1;
-        }
-        z += 1;
-    }
-    if p < h.len() {
-        let name = h[p].as_bytes();
-        check!(name.len() == K, "C03: a header name does not have k letters");
-        let mut v = 0u64;
-        let mut ok = true;
-        let mut j = 0;
-        while j < K {
-            if j < name.len() {
-                let c = name[j];
-                if !(c == b'A' || c == b'C' || c == b'G' || c == b'T') {
-                    ok = false;
-                }
-                v = v * 4 + (code(c) as u64 & 3);
-            }
-            j += 1;
-        }
-        check!(ok, "C03: a header name contains a letter outside ACGT");
-        check!(v == cp, "C03: header name of a column is not the column's canonical k-mer (column order)");
-    }
-    cover!(p > 0, "req: a column other than the first");
+    cover!(ncanon >= 2, "req: two or more columns");
     cover!(true, "req: end of harness reached");
     core::mem::forget(h);
     core::mem::forget(oc);
